@@ -171,3 +171,15 @@ irsym.LAYOUT_GUARDS.update({
     'struct.randomx::InstructionByteCode': [r'^%', r'^%', r'^%', r'^i16$', r'^%', r'^i32$'],
     'class.randomx::Program': [r'^\[16 x i64\]$', r'^\[\d+ x %"class\.randomx::Instruction"\]$'],
 })
+
+def concretize(it, t, what='value', limit=64):
+    """fork (solver-enumerated) until the term t has a concrete value on this path"""
+    if is_c(t): return t
+    ts = z3.simplify(t)
+    if z3.is_bv_value(ts): return ts.as_long()
+    for _ in range(limit):
+        sol = z3.Solver(); sol.add(*it.fork['pc'])
+        if sol.check() != z3.sat: raise Exception('infeasible path while concretising %s' % what)
+        val = sol.model().eval(ts, model_completion=True).as_long()
+        if it.decide(z3.If(ts == val, z3.BitVecVal(1, 1), z3.BitVecVal(0, 1))): return val
+    raise Exception('too many values for %s' % what)
